@@ -196,4 +196,16 @@ META = {
         "virtual_evidence_rebind, relabel.  The frequency-law clause is decided statistically with a stated error budget; every other clause exactly.",
         ["partial_samples", "law_cells_tested"],
     ),
+    "C13": _m(
+        "one evaluation = one simulated run: a Bayesian-network world of 2..5 (6 thorough) string-labelled variables (cardinality 2..3, one latent variable in 30% of "
+        "runs), one CausalInference object serving a history of 2..6 operations: BayesianNetwork.do (1..2 nodes, in-place or not, followed by further interventions on "
+        "result and original), CausalInference.query(variables, do) with 1..2 do-variables, default or a PRNG-chosen valid adjustment set, VE or BP back-end, refused "
+        "queries in between; is_valid_backdoor_adjustment_set / is_valid_adjustment_set on candidate sets of non-descendants, get_all_backdoor_adjustment_sets, "
+        "front-door tests (singleton sets), get_minimal_adjustment_set.  Oracle: do() removes exactly the incoming edges, intervened CPDs are parent-free distributions, all "
+        "other CPDs and the original model are untouched; every query equals the truncated-factorisation joint marginalised to the query variables; criteria by "
+        "d-separation on the mutilated graph / enumeration of directed paths.  Non-trivial = at least one checked operation; distinct = distinct trace digest.",
+        "faults: reject_op (refused query inside the history), relabel (the adjustment set is iterated as a set), back-end swarm.  The truncated factorisation and "
+        "criteria are by-products of the reference model; the simulated part is the engine history inside and across queries.",
+        ["multiple_do_variables", "parent_child_do_pair", "refused_query_raised"],
+    ),
 }
